@@ -60,6 +60,7 @@ KeepCtx == {"keepctx"}
 NoDrain == {"nodrain"}        \* the connection task exits on idle without draining what substreams have written
 CloseFirst == {"closefirst"}
 DrainAll == {"drainall"}      \* the drain in on_connection_closed swallows failed futures of other peers
+QueueAC == {"queueac"}        \* a Dial request that meets AlreadyConnected is queued in pending_dials instead of failing
 InvFilter == {"invfilter"}    \* on_connection_closed filters pending_outbound with the inverted predicate  \* on_connection_closed fails requests whose response has already arrived
 OnePeer == {p2}
 TwoPeers == {p2, p3}
@@ -76,7 +77,10 @@ VARIABLES
   evq,       \* events queued by TransportService for the protocol loop
   cmdq,      \* commands queued by the handle
   \* environment
-  mgr,       \* peer -> "disc" | "conn"    (TransportManager peer state)
+  mgr,       \* peer -> "disc" | "conn" | "closing"  (TransportManager's view of the peer, separate from the
+             \* protocol's `peers`: report_connection_closed tells the protocols first and the manager afterwards;
+             \* "closing" = the connection is dead, ConnectionClosed is queued for the protocol, the manager still
+             \* says connected until MgrClosed)
   mdial,     \* peer -> dial in flight
   wedged,    \* peers whose dial will never get an outcome (only with Wedge)
   svc,       \* peer -> "none" | "live" | "dead": connection held in TransportService.connections
@@ -157,11 +161,15 @@ OnSendRequest(c) ==
     IF c.d = "reject" THEN
       /\ mon' = MonFailEv(mon, R, r)                       \* NotConnected
       /\ UNCHANGED <<inpeers, active, pdial, pout, evars, kf>>
-    ELSE IF mgr[p] = "conn" THEN
-      \* dial() returns Err(AlreadyConnected): the manager has the connection, the protocol has not
-      \* processed ConnectionEstablished yet.  The request fails and nothing is stored.
-      /\ mon' = MonFailEv(mon, R, r)
-      /\ IF "keepctx" \in Bugs THEN InsertDial(p, r) ELSE UNCHANGED <<pdial, kf>>
+    ELSE IF mgr[p] # "disc" THEN
+      \* dial() returns Err(AlreadyConnected) from the manager's view: either the manager has the connection and the
+      \* protocol has not processed ConnectionEstablished yet, or the protocol has already processed ConnectionClosed
+      \* and the manager has not.  The request fails at once and nothing is stored.
+      \* "queueac": the request is queued in pending_dials and Ok returned (seeded change C13f) - in the close-side
+      \* window no ConnectionEstablished or DialFailure will ever drain it.
+      /\ IF "queueac" \in Bugs THEN mon' = mon /\ InsertDial(p, r)
+         ELSE /\ mon' = MonFailEv(mon, R, r)
+              /\ IF "keepctx" \in Bugs THEN InsertDial(p, r) ELSE UNCHANGED <<pdial, kf>>
       /\ UNCHANGED <<inpeers, active, pout, evars>>
     ELSE IF mdial[p] THEN
       \* TransportManagerHandle::dial: DialingInProgress => Ok(())
@@ -237,7 +245,7 @@ OnConnEst(p, alive) ==
 ReadyResp == IF "closefirst" \in Bugs THEN {} ELSE {r \in DOMAIN fut : rq[r] = "answered" /\ r \in wire}
 ReadyCanc == IF "closefirst" \in Bugs THEN {} ELSE {r \in DOMAIN fut \ ReadyResp : fut[r]}
 \* a future may be complete with a failure (timeout, substream closed, read error) - see PFut
-MayFail(r) == ~(~Faults /\ rq[r] = "answered" /\ ~(mgr[tgt[r]] = "disc" /\ r \notin wire))
+MayFail(r) == ~(~Faults /\ rq[r] = "answered" /\ ~(mgr[tgt[r]] # "conn" /\ r \notin wire))
 ReadyFailedOthers(p) == IF "closefirst" \in Bugs THEN {{}}
                         ELSE SUBSET {r \in DOMAIN fut \ (ReadyResp \cup ReadyCanc) : tgt[r] # p /\ MayFail(r)}
 Handled(r) == tgt[r] \in inpeers /\ r \in active[tgt[r]]     \* on_substream_event finds the request active
@@ -323,7 +331,7 @@ PFut(r, res) ==
   /\ res = "resp" => rq[r] = "answered" /\ r \in wire
   \* on a link without fault a timeout does not pre-empt a response whose send was reported complete,
   \* unless that response can no longer arrive
-  /\ (res = "err" /\ ~Faults /\ rq[r] = "answered") => (mgr[tgt[r]] = "disc" /\ r \notin wire)
+  /\ (res = "err" /\ ~Faults /\ rq[r] = "answered") => (mgr[tgt[r]] # "conn" /\ r \notin wire)
   /\ res = "canceled" => fut[r]
   /\ LET p == tgt[r] IN
        IF p \in inpeers /\ r \in active[p] THEN
@@ -391,7 +399,7 @@ EInbound(p) ==
 \* the connection dies (responder disconnects, link cut, keep-alive): substreams still being
 \* opened are never reported any more, ConnectionClosed is
 CloseConn(p) ==
-  /\ mgr' = [mgr EXCEPT ![p] = "disc"]
+  /\ mgr' = [mgr EXCEPT ![p] = "closing"]
   /\ svc' = [svc EXCEPT ![p] = IF @ = "live" THEN "dead" ELSE @]
   /\ sids' = sids \ Of(sids, p)
   /\ evq' = Append([j \in 1..Len(evq) |-> IF evq[j].k = "est" /\ evq[j].x = p THEN [evq[j] EXCEPT !.i = 0] ELSE evq[j]],
@@ -419,7 +427,7 @@ Pump(r) ==
 EClose(p) ==
   /\ Faults
   /\ mgr[p] = "conn"
-  /\ mgr' = [mgr EXCEPT ![p] = "disc"]
+  /\ mgr' = [mgr EXCEPT ![p] = "closing"]
   /\ svc' = [svc EXCEPT ![p] = IF @ = "live" THEN "dead" ELSE @]
   /\ sids' = sids \ Of(sids, p)
   /\ evq' = Append([j \in 1..Len(evq) |-> IF evq[j].k = "est" /\ evq[j].x = p THEN [evq[j] EXCEPT !.i = 0] ELSE evq[j]],
@@ -427,6 +435,13 @@ EClose(p) ==
   /\ hist' = H([a |-> "close", p |-> p])
   /\ gone' = IF Idle THEN gone \cup {r \in Rids : tgt[r] = p} ELSE gone
   /\ UNCHANGED <<inpeers, active, pdial, pout, fut, cancels, cmdq, mdial, wedged, nc, rq, inb, tgt, wire, mon, kf, nrid>>
+
+\* the manager processes the closure of the connection (Litep2p::next_event): only now dial() stops answering
+\* AlreadyConnected and a new connection with the peer can be made
+MgrClosed(p) ==
+  /\ mgr[p] = "closing"
+  /\ mgr' = [mgr EXCEPT ![p] = "disc"]
+  /\ UNCHANGED <<pvars, mdial, wedged, svc, sids, nc, rvars, mon, kf, hist, nrid>>
 
 ESubOpen(r) ==
   /\ r \in sids
@@ -468,7 +483,7 @@ User == \/ \E p \in Peers : \E d \in DialOpts : UIssue(p, d)
 Internal ==
   \/ PCmd \/ PEvt
   \/ \E r \in Rids : \E res \in {"resp", "canceled", "err"} : PFut(r, res)
-  \/ \E p \in Peers : EDialOk(p) \/ EDialFail(p) \/ EDialWedge(p)
+  \/ \E p \in Peers : EDialOk(p) \/ EDialFail(p) \/ EDialWedge(p) \/ MgrClosed(p)
   \/ \E r \in Rids : ESubOpen(r) \/ ESubFail(r) \/ Pump(r)
 Env ==
   \/ \E p \in Peers : EInbound(p) \/ EClose(p) \/ EForeignDialFail(p) \/ ConnTaskExitOnIdle(p)
@@ -485,7 +500,7 @@ FairSpec == Spec /\ WF_vars(Internal)
 \* nothing is in flight at the requesting node
 Quiescent ==
   /\ evq = <<>> /\ cmdq = <<>> /\ fut = <<>> /\ sids = {}
-  /\ \A p \in Peers : mdial[p] => p \in wedged
+  /\ \A p \in Peers : (mdial[p] => p \in wedged) /\ mgr[p] # "closing"
 
 \* the monitor never objects (second terminal event, foreign response, request seen twice,
 \* bound exceeded, panic)
